@@ -28,6 +28,7 @@ UNIT = dict(
         dict(kind="struct", file=BLK, struct="Metadata"),
         dict(kind="struct", file=WR, struct="ReadPlan"),
         dict(kind="prelude", file="rkyv.rs"),
+        DECODE_ITEM,
         dict(kind="model", file="parse_model.rs"),
         dict(kind="model", file="bytes_model.rs"),
         dict(kind="model", file="plan_model.rs"),
